@@ -10,6 +10,8 @@ Decided:
   R02.5  interval tests have the documented half-open shape: start <= t < end blocks (vacation,
          leave); default calendar Mon-Fri 09:00-17:00; working-hours interval start <= m < end,
          cross-midnight (end <= start): m >= start or m < end, spill-over from the previous weekday
+  R02.7  a slot whose scoreboard entry is a blocking marker is offered only when part of it was released
+  R02.8  a value remembered between calendar queries is keyed by the parameters it was computed from (no lossy memo key)
   R02.6  local time: weekday / minute are taken after the time-zone conversion
 Not decided: minute-exact containment when shift edges are not slot aligned, DST arithmetic.
 """
@@ -274,6 +276,33 @@ def run(ctx: Ctx):
                    "taken from the time converted to the resource's zone" if ok else
                    "weekday / minute of the slot are not taken from the zone-converted time",
                    key=key_of("R02.6", wh, n))
+    # ---------------------------------------------------------------- R02.8 memo-key soundness in the calendar decision
+    from ..memo import control_ok, memo_findings
+    if not control_ok():
+        raise AnchorMissing("memo-key rule: built-in control sample no longer matches")
+    scope = sorted(ctx.cg.reach([avail, onshift]), key=lambda f: f.key)
+    nmemo = 0
+    for fn in scope:
+        if not isinstance(fn.node, (ast.FunctionDef, ast.AsyncFunctionDef)):
+            continue
+        found = memo_findings(fn.node)
+        nmemo += 1
+        by_store = {}
+        for cont, key, p, st in found:
+            by_store.setdefault((cont, norm(key)), (st, []))[1].append(p)
+        for (cont, k), (st, lost) in sorted(by_store.items()):
+            ctx.ob("R02.8", f"{fn.qual}: entry {cont}[{k}]", (fn, st), False,
+                   f"a value computed from {', '.join(lost)} is stored under a key that does not contain {', '.join(lost)} itself "
+                   f"(only a projection of it, or nothing): later calls with a different {lost[0]} that maps to the same key are "
+                   "answered with the first call's value",
+                   key=key_of("R02.8", fn, None, f"{cont} lost {','.join(lost)}"))
+    ctx.ob("R02.8", f"memo-key soundness over {nmemo} functions reachable from available()/onShift()", avail, True,
+           "no container entry is keyed by less than the parameters its value was computed from", nontrivial=False)
+    # ---------------------------------------------------------------- R02.7 blocked scoreboard entries (shared with C01 R01.5)
+    # a scoreboard entry that is not None (leave / vacation marker or another task) is offered only after a partial release
+    from .c01 import partial_reoffer_rule
+    partial_reoffer_rule(ctx, "R02.7")
+    ctx.floor("R02.7", 1)
     ctx.floor("R02.1", 16)
     ctx.floor("R02.3", 5)
     ctx.floor("R02.5", 9)
